@@ -600,7 +600,7 @@ def rule_precedence(ck):
     anchor_node = lp if lp is not None else nexts[0]
     if g2 is None:
         src = q.dotted(recv)
-        sd = [d for d in cfg.stmt_nodes(lambda n: n.kind == "stmt" and src is not None and src in q.assigned_paths(n.ast)) if cfg.dominates(d, anchor_node)]
+        sd = [d for d in cfg.stmt_nodes(lambda n: n.kind == "stmt" and src is not None and src in q.assigned_paths(n.ast)) if d is not anchor_node and cfg.dominates(d, anchor_node)]
         if not sd:
             raise AnalysisError("_apply_xheaders: source of the scanned list not understood: %s" % q.unparse(recv))
         g2 = hdr_get(sd[-1].ast.value) if isinstance(sd[-1].ast, ast.Assign) else None
